@@ -24,8 +24,11 @@
               <<"obs", 0>>   the harness: reads the outcome when everybody is finished
    Whoever finds the inner future already done when attaching (add_done_callback) runs stage 2 inline.
 
-   AsShipped_D12 = TRUE models the shipped code: FlatMapFuture._on_mapped resets _map_fn but keeps
-   _error_fn, so a failing inner future is passed to error_fn again (defect D12, found by this check).
+   AsShipped_D12 = TRUE models the code as shipped upstream: FlatMapFuture._on_mapped reset _map_fn but kept
+   _error_fn, so a failing inner future was passed to error_fn again and whatever that returned became the
+   *value* of the output (defect D12, found by this check, repaired in /repo by 0d7ede8).  MapFuture.mc.cfg
+   checks the repaired design (FALSE); MapFuture.d12.cfg (TRUE) is the negative control that must fail with
+   C13_AtMostOnceOwnCase.  Bug = "swallow_efn_exc" / "drop_result" are further seeded model bugs.
    Ghost state obs / viol: the contract MapLawsObs fed with the events the actions generate.
 *)
 EXTENDS MapLawsObs
